@@ -50,6 +50,7 @@ func rtGenConfig() model.GenConfig {
 	cfg.KindPairPct = 35
 	cfg.AliasKeyPct = 30
 	cfg.BulkStreamPct = 20
+	cfg.CompositeFlagsPct = 35
 	cfg.RootNamespace = "Mdl" // "Main" would become the C++ namespace `main`, clashing with the driver's entry point
 	return cfg
 }
